@@ -288,7 +288,9 @@ let () =
                  | a :: r, b :: r' -> if string_of_qc a = string_of_qc fq then b else find r r'
                  | _, _ -> failwith "interp: not a calibration frequency") in
              find calf vals in
-           let env = { en_calf = calf; en_fvalid = fvalid; en_lo = lo; en_hi = hi; en_full_s_ok = fullok } in
+           (* MIN_DX of src/vnacommon_spline.c: the binary64 value of 0.0001 *)
+           let env = { en_calf = calf; en_fvalid = fvalid; en_lo = lo; en_hi = hi; en_full_s_ok = fullok;
+                       en_gaps_ok = q_gaps_ok (qc_of_string "7378697629483821/73786976294838206464") } in
            let ncalls = ni () in
            let opt n = (match !toks with "-" :: r -> toks := r; None | _ -> Some (times n qn)) in
            let h = times ncalls (fun () ->
